@@ -85,17 +85,22 @@ Inductive filing :=
 | FRecent (t : Z)    (* merged into recentBuckets[t - oldest] *)
 | FHistoric (t : Z). (* merged into historicBuckets[t] *)
 
+Definition file_decision (historic : bool) (t r oldest newest hist_window : Z) : filing :=
+  if historic then
+    if newest <? r then FDiscard
+    else if (hist_window <=? oldest) && (r <? u32 (oldest - hist_window)) then FDiscard
+    else if r <? oldest then FHistoric t
+    else FRecent r
+  else
+    if newest <? r then FDiscard
+    else if r <? oldest then FKeep
+    else FRecent r.
+
 Definition file_bucket (historic : bool) (t oldest newest hist_window replica_key : Z) : option filing :=
   match round_to_our_time 3 t replica_key with
   | None => None
-  | Some r =>
-    Some (if historic then
-      if newest <? r then FDiscard
-      else if (hist_window <=? oldest) && (r <? u32 (oldest - hist_window)) then FDiscard
-      else if r <? oldest then FHistoric t
-      else FRecent r
-    else
-      if newest <? r then FDiscard
-      else if r <? oldest then FKeep
-      else FRecent r)
+  | Some r => Some (file_decision historic t r oldest newest hist_window)
   end.
+
+(* goTicker: a ready bucket is handed to the inserter only when it is this replica's second *)
+Definition ticker_inserts (bucket_time replica_key : Z) : bool := bucket_time mod 3 =? u32 (replica_key - 1).
